@@ -74,3 +74,101 @@ package version
 //@ func Version.ID
 //@   modifies nothing
 //@ end
+
+//@ # ---- file numbering of the version set (C01): a number handed out is never handed out again, also after
+//@ # recovery from the manifest: every manifest record carries the next file number of the moment it was written
+//@ predicate vsNumOK(vs *storeVersionSet) bool = vs.manifestFileNumber.val >= 0 && vs.manifestFileNumber.val < vs.nextFileNumber.val && vs.nextFileNumber.val < 4611686018427387904
+//@ func storeVersionSet.setNextFileNumberWithoutLock
+//@   prop C01
+//@   requires int64(newNextFileNumber) >= 0 && int64(newNextFileNumber) < 4611686018427387903
+//@   modifies vs.manifestFileNumber.val, vs.nextFileNumber.val
+//@   ensures[recovered_numbers_lie_above_everything_logged] vs.manifestFileNumber.val == int64(newNextFileNumber) && vs.nextFileNumber.val == int64(newNextFileNumber) + 1 && vsNumOK(vs)
+//@ end
+//@ func storeVersionSet.NextFileNumber
+//@   prop C01
+//@   requires vsNumOK(vs)
+//@   modifies vs.nextFileNumber.val
+//@   ensures[numbers_are_handed_out_once_and_in_order] int64(result) == old(vs.nextFileNumber.val) && vs.nextFileNumber.val == old(vs.nextFileNumber.val) + 1
+//@   ensures[never_the_number_of_the_live_manifest] int64(result) > vs.manifestFileNumber.val && vs.manifestFileNumber.val == old(vs.manifestFileNumber.val)
+//@ end
+//@ # edit logs collect records in order
+//@ func EditLog.Add
+//@   norefine
+//@   requires typeis(self, "*editLog")
+//@   modifies cast(self, "*editLog").logs
+//@   ensures len(cast(self, "*editLog").logs) == old(len(cast(self, "*editLog").logs)) + 1 && cast(self, "*editLog").logs[old(len(cast(self, "*editLog").logs))] == log && forall(i, 0, old(len(cast(self, "*editLog").logs)), cast(self, "*editLog").logs[i] == old(cast(self, "*editLog").logs[i]))
+//@ end
+//@ func StoreVersionSet.setNextFileNumberWithoutLock
+//@   requires typeis(self, "*storeVersionSet") && int64(newNextFileNumber) >= 0 && int64(newNextFileNumber) < 4611686018427387903
+//@   modifies cast(self, "*storeVersionSet").manifestFileNumber.val, cast(self, "*storeVersionSet").nextFileNumber.val
+//@   ensures cast(self, "*storeVersionSet").manifestFileNumber.val == int64(newNextFileNumber) && cast(self, "*storeVersionSet").nextFileNumber.val == int64(newNextFileNumber) + 1
+//@ end
+//@ func storeVersionSet.createStoreSnapshot
+//@   prop C01
+//@   ensures[the_snapshot_record_carries_the_next_file_number] result != nil && typeis(result, "*editLog") && len(cast(result, "*editLog").logs) == 1 && typeis(cast(result, "*editLog").logs[0], "*nextFileNumber") && int64(cast(cast(result, "*editLog").logs[0], "*nextFileNumber").fileNumber) == vs.nextFileNumber.val
+//@ end
+//@ func nextFileNumber.applyVersionSet
+//@   prop C01
+//@   requires versionSet != nil && typeis(versionSet, "*storeVersionSet") && int64(n.fileNumber) >= 0 && int64(n.fileNumber) < 4611686018427387903
+//@   modifies cast(versionSet, "*storeVersionSet").manifestFileNumber.val, cast(versionSet, "*storeVersionSet").nextFileNumber.val
+//@   ensures[recovery_restarts_above_the_logged_number] cast(versionSet, "*storeVersionSet").manifestFileNumber.val == int64(n.fileNumber) && cast(versionSet, "*storeVersionSet").nextFileNumber.val == int64(n.fileNumber) + 1
+//@ end
+
+//@ # ---- committing an edit log (C01): the record is written and synced before the new version becomes visible;
+//@ # if persisting fails nothing is installed -------------------------------------------------------------------
+//@ func EditLog.marshal
+//@   modifies nothing
+//@ end
+//@ func github.com/lindb/lindb/pkg/bufioutil.BufioWriter.Sync
+//@   modifies nothing
+//@ end
+//@ func storeVersionSet.persistEditLogs
+//@   prop C01
+//@   arith math
+//@   requires writer != nil && writer.n >= 0 && forall(i, 0, len(editLogs), editLogs[i] != nil)
+//@   modifies writer.out, writer.n
+//@   ensures[every_record_is_synced_before_success] result == nil ==> (calls(writer.Sync) == old(calls(writer.Sync)) + len(editLogs) && calls(writer.Write) == old(calls(writer.Write)) + len(editLogs))
+//@   ensures[earlier_records_untouched] all(i, (i >= 0 && i < old(writer.n)) ==> writer.out[i] == old(writer.out)[i])
+//@   loop 1 invariant rangeindex >= -1 && rangeindex < len(editLogs) && calls(writer.Sync) == old(calls(writer.Sync)) + rangeindex + 1 && calls(writer.Write) == old(calls(writer.Write)) + rangeindex + 1 && forall(i, 0, len(editLogs), editLogs[i] != nil) && writer.n >= old(writer.n)
+//@   loop 1 invariant all(i, (i >= 0 && i < old(writer.n)) ==> writer.out[i] == old(writer.out)[i])
+//@ end
+//@ uf vsFamily(ref, string) ref
+//@ func storeVersionSet.GetFamilyVersion
+//@   assume
+//@   modifies nothing
+//@   ensures result == cast(vsFamily(vs, family), "FamilyVersion")
+//@ end
+//@ func FamilyVersion.GetSnapshot
+//@   norefine
+//@   modifies any(*version).ref.val
+//@   ensures result != nil
+//@ end
+//@ func FamilyVersion.appendVersion
+//@   norefine
+//@   modifies any(*familyVersion).current, any(*familyVersion).activeVersions[*]
+//@ end
+//@ func Snapshot.GetCurrent
+//@   modifies nothing
+//@   ensures result != nil
+//@ end
+//@ func Snapshot.Close
+//@   norefine
+//@   modifies any(*version).ref.val, any(*familyVersion).activeVersions[*]
+//@ end
+//@ func Version.Clone
+//@   modifies nothing
+//@   ensures result != nil
+//@ end
+//@ func EditLog.apply
+//@   modifies *
+//@ end
+//@ stable storeVersionSet.nextFileNumber
+//@ func storeVersionSet.CommitFamilyEditLog
+//@   prop C01
+//@   requires editLog != nil && typeis(editLog, "*editLog") && (vsFamily(vs, family) != nil ==> (vs.manifest != nil && vs.manifest.n >= 0)) && vs.nextFileNumber != nil
+//@   modifies *
+//@   ensures[a_version_is_installed_only_after_its_record_is_written_and_synced] calls(cast(vsFamily(vs, family), "FamilyVersion").appendVersion) != old(calls(cast(vsFamily(vs, family), "FamilyVersion").appendVersion)) ==> (result == nil && calls(old(vs.manifest).Sync) == old(calls(vs.manifest.Sync)) + 1)
+//@   ensures[failure_installs_nothing] result != nil ==> calls(cast(vsFamily(vs, family), "FamilyVersion").appendVersion) == old(calls(cast(vsFamily(vs, family), "FamilyVersion").appendVersion))
+//@   ensures[success_installs_exactly_one_version] (result == nil) ==> calls(cast(vsFamily(vs, family), "FamilyVersion").appendVersion) == old(calls(cast(vsFamily(vs, family), "FamilyVersion").appendVersion)) + 1
+//@   ensures[the_record_carries_the_next_file_number] result == nil ==> (len(cast(editLog, "*editLog").logs) == old(len(cast(editLog, "*editLog").logs)) + 1 && typeis(cast(editLog, "*editLog").logs[old(len(cast(editLog, "*editLog").logs))], "*nextFileNumber"))
+//@ end
